@@ -59,6 +59,8 @@ type opDef struct {
 	Flag  int32
 	Slot  int
 	Tick  int64
+	// FailHandler (with okExit): an exit handler that returns an error is registered before the Exit
+	FailHandler bool
 }
 
 var argSets = [][]interface{}{nil, {"A"}, {"B"}, {[]int{1}}}
@@ -79,6 +81,9 @@ func (o opDef) String() string {
 	case okTrace:
 		return fmt.Sprintf("T(%d)", o.Slot)
 	case okExit:
+		if o.FailHandler {
+			return fmt.Sprintf("X(%d,failing-exit-handler)", o.Slot)
+		}
 		return fmt.Sprintf("X(%d)", o.Slot)
 	case okExitErr:
 		return fmt.Sprintf("XE(%d)", o.Slot)
@@ -332,6 +337,9 @@ func (s *scen) Apply(i int) (obs string, viol string) {
 			}
 			r.e.Exit(base.WithError(exitErr))
 		} else {
+			if o.FailHandler && !r.exited {
+				r.e.WhenExit(func(*base.SentinelEntry, *base.EntryContext) error { return errors.New("exit handler failed") })
+			}
 			r.e.Exit()
 		}
 		if r.exited {
@@ -500,6 +508,7 @@ func mkOps(custom, quick bool) []opDef {
 	for k := 0; k < nSlots; k++ {
 		ops = append(ops, opDef{Kind: okExitErr, Slot: k})
 	}
+	ops = append(ops, opDef{Kind: okExit, Slot: 0, FailHandler: true})
 	ops = append(ops, opDef{Kind: okTick, Tick: 7}, opDef{Kind: okTick, Tick: 600}, opDef{Kind: okMiss})
 	return ops
 }
